@@ -50,3 +50,32 @@ Theorem C03_chunks_cover_the_stream :
     flat_map (fun i => match i with IDoc c => c_content c | _ => [] end) (chunker data evs) =
       firstn (final_end 0 ds) data.
 Proof. exact chunks_cover_the_stream. Qed.
+
+(* Reframing for JSON output: the stream xt writes for N documents - each
+   value followed by a newline - is read back, by the reader loop and by the
+   slice loop, as exactly N documents with the events of the values written
+   (theories/JsonWriteProofs.v; floats under the stated contract on ryu). *)
+From XtModel Require Import MsgpackModel JsonModel JsonWriteModel JsonWriteProofs.
+
+Theorem C03_json_output_recovers_documents :
+  forall (fmt_f64 : N -> bytes) (float_ok : N -> bool),
+    (forall b, float_ok b = true -> forall f depth tail, val_end tail ->
+       parse_value (S f) depth (fmt_f64 b ++ tail) = ([EF64 b], JOk tail)) ->
+    (forall b, float_ok b = true ->
+       exists c r, fmt_f64 b = c :: r /\ is_ws c = false /\ (c =? 93)%N = false /\ (c =? 125)%N = false /\ (c =? 44)%N = false) ->
+    forall vs : list jval, Forall (writable float_ok) vs ->
+      json_reader (jwrite_docs fmt_f64 vs) = (map jevs vs, JDone) /\
+      json_slice (jwrite_docs fmt_f64 vs) = (map jevs vs, JDone).
+Proof. intros f k H1 H2 vs H. split; [exact (json_reader_reads_docs f k H1 H2 vs H)|exact (json_slice_reads_docs f k H1 H2 vs H)]. Qed.
+
+(* and for MessagePack output: back-to-back values are recovered one by one
+   (theories/MsgpackCodecProofs.v). *)
+From XtModel Require Import MsgpackCodecProofs.
+
+Theorem C03_msgpack_output_recovers_documents :
+  forall (utf8_valid : bytes -> bool) (vs : list mval), Forall (encodable utf8_valid) vs ->
+    fst (transcode_reader utf8_valid (flat_map enc_val vs)) = map evs vs /\
+    fst (transcode_slice utf8_valid (flat_map enc_val vs)) = map evs vs.
+Proof.
+  intros u vs H. split; [exact (proj1 (reader_identity u vs H))|exact (proj1 (slice_identity u vs H))].
+Qed.
